@@ -305,3 +305,36 @@ class TrashWorld(object):
 
 def list_line(e):
     return "%s %s" % (e["date"].replace("T", " "), e["orig"])
+
+
+# ------------------------------------------------------------------ populated worlds (strategies)
+
+def draw_layout(draw, layouts=None, uids=(1000, 0)):
+    lay = draw(st.sampled_from(layouts or sorted(LAYOUTS)))
+    vols, home = LAYOUTS[lay]
+    tw = TrashWorld(vols, home, draw(st.sampled_from(list(uids))))
+    tw.layout = lay
+    return tw
+
+
+def draw_tdirs(draw, tw, top_kinds=("alt", "sticky"), always_home=True):
+    """choose which trash directories exist: [(tdir, base)]; base None = home trash"""
+    tds = [(tw.home_trash(), None)] if always_home or draw(st.booleans()) else []
+    for v in ["/"] + tw.vols:
+        for which in top_kinds:
+            if draw(st.booleans()):
+                tds.append((tw.top_trash(v, which), v))
+    if not tds:
+        tds.append((tw.home_trash(), None))
+    return tds
+
+
+def orig_dirs(tw, base):
+    """directories an original location may live in, for a trash dir with the given base"""
+    from .oracle import volume_of
+    if base is None:
+        hv = volume_of(tw.vols, tw.home)
+        root = "" if hv == "/" else hv
+        return [tw.home + "/w", tw.home + "/w/sub dir", tw.home, root + "/data" if root == "" else root + "/shared"]
+    b = base.rstrip("/")
+    return [b + "/w", b + "/w/sub dir", b + "/deep/er/still"]
